@@ -1321,8 +1321,15 @@ func init() {
 			}
 			return 12
 		},
-		run: c05Main,
+		run: func(c *Ctx) {
+			c03ConcurrentFor(c, "C05", c05ConcScenarios(), c05ConcEvery)
+			c05Main(c)
+		},
 		replay: func(c *Ctx, raw json.RawMessage) string {
+			var cr0 c03ConcReplay
+			if json.Unmarshal(raw, &cr0) == nil && cr0.Kind == "concurrent-callbacks" {
+				return c03ConcReplayFor(c, "C05", cr0, c05ConcEvery)
+			}
 			var cs c05Case
 			if err := json.Unmarshal(raw, &cs); err != nil {
 				c.Error("bad replay case: %v", err)
